@@ -46,6 +46,8 @@ def market_history(seed, max_events=40, tick=1.0, prices=(8, 12), offgrid=False,
         if r < 0.6:
             mkt = rng.random() < 0.2
             p = None if mkt else float(rng.randint(*prices)) + (rng.choice([0.0, 0.25, 0.5]) if offgrid else 0.0)
+            if offgrid and not mkt and rng.random() < 0.15:
+                p = rng.choice([0.25, 0.75, 1.5, 2.0 ** -20, 10 - 2.0 ** -36, 10 + 2.0 ** -36]) * tick      # below the first grid level, and a hair off a level
             o = Order(agent_id=rng.randint(0, 2), market_id=0, is_buy=rng.random() < 0.5, kind=MARKET_ORDER if mkt else LIMIT_ORDER,
                       volume=rng.randint(1, 3), price=p, ttl=rng.choice([None, 1, 2, 3]))
             ev = ("add", o.is_buy, p, o.volume, o.ttl)
@@ -70,7 +72,7 @@ def market_history(seed, max_events=40, tick=1.0, prices=(8, 12), offgrid=False,
     return m, events
 
 
-def search_seeds(install, run, seeds, describe, only_function=None):
+def search_seeds(install, run, seeds, describe, only_function=None, same_class=False):
     """run(seed) under the monitors named in `install`; first contract violation (or forbidden exception) is the witness"""
     monitors.uninstall()
     monitors.install(install)
@@ -81,7 +83,7 @@ def search_seeds(install, run, seeds, describe, only_function=None):
             try:
                 run(seed)
             except monitors.ContractViolation as e:
-                if only_function and e.function != only_function:
+                if only_function and e.function != only_function and not (same_class and e.function.split(".")[0] == only_function.split(".")[0]):
                     continue
                 return {"found": True, "input": {"seed": seed, **describe}, "observed": {"function": e.function, "clause": e.clause, "details": repr(e.details)},
                         "witness_key": f"{e.function}|{e.clause}", "cases": cases, "contract_evaluations": monitors.EVALS["n"]}
@@ -90,6 +92,13 @@ def search_seeds(install, run, seeds, describe, only_function=None):
                     continue
                 return {"found": True, "input": {"seed": seed, **describe}, "observed": {"exception": "AssertionError", "trace": traceback.format_exc()[-700:]},
                         "witness_key": "AssertionError", "cases": cases, "contract_evaluations": monitors.EVALS["n"]}
+        if only_function and not same_class:
+            # no run-time contract of exactly that function fired: accept one of another method of the same class (the failed obligation may
+            # belong to a helper whose effect only shows at its caller)
+            monitors.uninstall()
+            r = search_seeds(install, run, seeds, describe, only_function=only_function, same_class=True)
+            r["cases"] = r.get("cases", 0) + cases
+            return r
         return {"found": False, "cases": cases, "contract_evaluations": monitors.EVALS["n"]}
     finally:
         monitors.uninstall()
@@ -101,7 +110,7 @@ def replay_seed(install, run, seed, only_function=None):
         run(seed)
         return {"violated": False}
     except monitors.ContractViolation as e:
-        if only_function and e.function != only_function:
+        if only_function and e.function.split(".")[0] != only_function.split(".")[0]:
             return {"violated": False, "other_violation": f"{e.function}: {e.clause}"}
         return {"violated": True, "function": e.function, "clause": e.clause, "details": repr(e.details)}
     except AssertionError:
